@@ -49,6 +49,8 @@ func main() {
 		os.Exit(cmdSelftest(os.Args[2:]))
 	case "ssa":
 		cmdSSA(os.Args[2:])
+	case "sym":
+		cmdSym(os.Args[2:])
 	case "list":
 		ids := []string{}
 		for id := range registry {
@@ -322,5 +324,33 @@ func init() {
 			fmt.Println(f.String(), f.Pkg != nil, f.Origin() != nil, f.Name())
 		}
 		os.Exit(0)
+	}
+}
+
+// cmdSym (debug): kverif sym <pkg-suffix> <func> <result-idx> [atom=true|false ...]
+func cmdSym(args []string) {
+	L, err := load(loadOpts{})
+	if err != nil {
+		fmt.Println(err)
+		os.Exit(2)
+	}
+	L.buildSSA()
+	assume := map[string]bool{}
+	for _, a := range args[3:] {
+		kv := strings.SplitN(a, "=", 2)
+		assume[kv[0]] = kv[1] == "true"
+	}
+	idx := 0
+	fmt.Sscanf(args[2], "%d", &idx)
+	for path := range L.SSA {
+		if strings.HasSuffix(path, args[0]) && strings.HasPrefix(path, modPath) {
+			if fn := L.fn(path, args[1]); fn != nil {
+				s := newSym(L, assume)
+				for _, t := range s.evalFn(fn, idx) {
+					fmt.Println(t)
+				}
+				fmt.Println("unknown:", *s.unknown)
+			}
+		}
 	}
 }
